@@ -36,7 +36,8 @@ type lcInc struct {
 type lcProg struct {
 	Main  string   `json:"main"`
 	Diags []string `json:"diags"`
-	Incs  []lcInc  `json:"incs"`
+	Incs   []lcInc  `json:"incs"`
+	Layout string   `json:"layout"`
 }
 type lcFlags struct {
 	Json      bool   `json:"json"`
@@ -87,6 +88,7 @@ var ruleName = map[string]string{
 	"rx": "function/argument-type",
 	"rs": "snippet-scope-required",
 	"rm": "include/module-load-failed",
+	"rd": "subroutine/duplicated",
 }
 var sevName = map[string]string{"ERROR": "Error", "WARNING": "Warning", "INFO": "Info"}
 
@@ -97,6 +99,37 @@ func has(p lcProg, k string) bool {
 		}
 	}
 	return false
+}
+
+// the three statements that carry the E / X / I diagnostics, per layout of their lines: the token of the diagnostic
+// at the start of a short line, right of a delimiter long string, after tabs, beyond column 300, on a continuation line
+var wide = strings.Repeat("w", 300)
+var layoutStmts = map[string][3]string{
+	"plain": {
+		"  set req.http.X = std.itoa(0, 1, 2);\n",
+		"  // falco-ignore-next-line\n  set req.http.Y = std.itoa(req.http.bar);\n",
+		"  if (req.http.E) { error 900; }\n",
+	},
+	"longstr": {
+		"  set req.http.X = {JSON\"{ \"k\": \"v\" }\"JSON} std.itoa(0, 1, 2);\n",
+		"  // falco-ignore-next-line\n  set req.http.Y = {JSON\"a\"JSON} std.itoa(req.http.bar);\n",
+		"  if (req.http.E == {JSON\"x y\"JSON}) { error 900; }\n",
+	},
+	"tab": {
+		"\tset req.http.X =\t\"a\"\tstd.itoa(0, 1, 2);\n",
+		"\t// falco-ignore-next-line\n\tset req.http.Y =\t\"a\"\tstd.itoa(req.http.bar);\n",
+		"\tif (req.http.E)\t{\terror 900; }\n",
+	},
+	"wide": {
+		"  set req.http.X = \"" + wide + "\" std.itoa(0, 1, 2);\n",
+		"  // falco-ignore-next-line\n  set req.http.Y = \"" + wide + "\" std.itoa(req.http.bar);\n",
+		"  if (req.http.E == \"" + wide + "\") { error 900; }\n",
+	},
+	"multi": {
+		"  set req.http.X =\n    \"a\"\n    std.itoa(0, 1, 2);\n",
+		"  // falco-ignore-next-line\n  set req.http.Y =\n    \"a\"\n    std.itoa(req.http.bar);\n",
+		"  if (req.http.E\n      == \"x\") {\n    error\n      900;\n  }\n",
+	},
 }
 
 // moduleFiles writes the module(s) of the i-th include statement and tells whether main may call its subroutine
@@ -133,12 +166,23 @@ func files(p lcProg) map[string]string {
 	for i, inc := range p.Incs {
 		moduleFiles(f, i+1, inc)
 	}
+	// "again" includes the module of the first include statement once more
+	modOf := func(i int) int {
+		if p.Incs[i].Kind == "again" {
+			return 1
+		}
+		return i + 1
+	}
 	rootIncludes := func() {
 		for i, inc := range p.Incs {
 			if inc.At == "root" {
-				fmt.Fprintf(&b, "include \"mod%d\";\n", i+1)
+				fmt.Fprintf(&b, "include \"mod%d\";\n", modOf(i))
 			}
 		}
+	}
+	st := layoutStmts[p.Layout]
+	if p.Layout == "" {
+		st = layoutStmts["plain"]
 	}
 	switch p.Main {
 	case "syntax":
@@ -172,17 +216,17 @@ func files(p lcProg) map[string]string {
 			}
 		}
 		if has(p, "E") {
-			b.WriteString("  set req.http.X = std.itoa(0, 1, 2);\n")
+			b.WriteString(st[0])
 		}
 		if has(p, "X") {
-			b.WriteString("  // falco-ignore-next-line\n  set req.http.Y = std.itoa(req.http.bar);\n")
+			b.WriteString(st[1])
 		}
 		if has(p, "I") {
-			b.WriteString("  if (req.http.E) { error 900; }\n")
+			b.WriteString(st[2])
 		}
 		for i, inc := range p.Incs {
 			if inc.At == "sub" {
-				fmt.Fprintf(&b, "  include \"mod%d\";\n", i+1)
+				fmt.Fprintf(&b, "  include \"mod%d\";\n", modOf(i))
 			}
 		}
 		b.WriteString("}\nsub vcl_deliver {\n")
